@@ -382,9 +382,14 @@ def r8_buffers(ctx):
         for lab in sorted(gotos):
             at = [i for i, s in enumerate(body) if s[0] == "label" and s[1] == lab]
             if not at:
-                ctx.error(f"{tag}: label {lab} is not at the top level of the function", where)
-                continue
-            freed = [s[1][2][0][1] for s in body[at[0]:] if s[0] == "expr" and s[1][0] == "call" and s[1][1] in Y.FREE_NAMES and s[1][2] and s[1][2][0][0] == "var"]
+                continue          # a jump inside the loops (`goto next_point` for `break`): executed like any other path, nothing is released there
+            # the straight-line section the label opens: up to its first `return` at the top level
+            section = []
+            for st in body[at[0]:]:
+                section.append(st)
+                if st[0] == "return":
+                    break
+            freed = [s[1][2][0][1] for s in section if s[0] == "expr" and s[1][0] == "call" and s[1][1] in Y.FREE_NAMES and s[1][2] and s[1][2][0][0] == "var"]
             ok = names <= set(freed) and len(freed) == len(set(freed))
             ctx.check(ok, f"{tag}: the `{lab}` exit frees every calloc'ed buffer exactly once ({sorted(freed)})", where)
 
